@@ -39,7 +39,7 @@ func (r *Rng) c09Host() []string {
 			// an escape of an escape (one element, spelled as it is or escaped once more): decoding once leaves a '%', a forbidden
 			// domain code point - the host is never what decoding twice would give
 			cps = append(cps, strings.Split(r.Pick([]string{"ex", "a", "1.2.3.", "loca", "0x"}), "")...)
-			cps = append(cps, r.Pick([]string{"%2541", "%2561", "%2534", "%%341", "%25%36%31", "%2531", "%256C"}))
+			cps = append(cps, r.Pick([]string{"%2541", "%2561", "%2534", "%%341", "%25%36%31", "%2531", "%256C", "%x0", "%4X", "%Xf", "%0x", "%xX", "%g1", "%"}))
 			cps = append(cps, strings.Split(r.Pick([]string{"mple", "", "lhost", "7f"}), "")...)
 		default:
 			n := 1 + r.Intn(4)
@@ -477,6 +477,46 @@ func init() {
 						}
 					})
 				}
+			}
+			// the four relations over other option bases than the default: the diagnostics options are orthogonal to the options
+			// that relax or extend parsing
+			for _, ob := range []string{"singlePct", "collapse", "acceptInvalid", "skipDrive+skipTrailSlash", "specialAdd", "singlePct+collapse+acceptInvalid"} {
+				ob := ob
+				bd, br, bf, bb := cfgFromDesc(ob), cfgFromDesc(ob+"+report"), cfgFromDesc(ob+"+fail"), cfgFromDesc(ob+"+fail+report")
+				famParse(c, bd, 2500*c.Scale, allFields, true, "diagnostics:"+ob, func(d *Driver, base *string, input string, o Obs, idx int) {
+					or := c.cmpParse(d, br, base, input, allFields, true, "diagnostics:"+ob+":reporting", idx)
+					of := c.cmpParse(d, bf, base, input, allFields, true, "diagnostics:"+ob+":fail", idx)
+					obb := c.cmpParse(d, bb, base, input, allFields, true, "diagnostics:"+ob+":both", idx)
+					cs := Case{Kind: "parse", Cfg: ob, Base: base, Input: input, Family: "diagnostics:" + ob, Index: idx}
+					same := func(a, b Obs) bool {
+						if a.Kind != b.Kind {
+							return false
+						}
+						if a.Kind == "U" {
+							for _, i := range urlFieldsOnly {
+								if a.Fields[i] != b.Fields[i] {
+									return false
+								}
+							}
+						}
+						return true
+					}
+					if !same(o, or) {
+						c.Report(Finding{Class: "violation", What: "under " + ob + " reporting changes the result: " + o.String() + " ; reporting " + or.String(), Case: cs})
+					}
+					if !same(of, obb) {
+						c.Report(Finding{Class: "violation", What: "under " + ob + " reporting changes the result under fail-on-validation-error: " + of.String() + " ; " + obb.String(), Case: cs})
+					}
+					if of.Kind == "U" && !same(of, o) {
+						c.Report(Finding{Class: "violation", What: "under " + ob + " fail-on-validation-error accepted with a different result: " + of.String() + " ; without it " + o.String(), Case: cs})
+					}
+					if base == nil {
+						clean := or.Kind == "U" && or.Fields[fVerrs] == ""
+						if (of.Kind == "U") != clean {
+							c.Report(Finding{Class: "violation", What: fmt.Sprintf("under %s fail-on-validation-error accepts=%v but reporting mode gives %s", ob, of.Kind == "U", or.String()), Case: cs})
+						}
+					}
+				})
 			}
 			// the same relations for canonicalization profiles, whose Parse may run the parser twice (default scheme): what the
 			// first, failed run trimmed or removed must still be reported / rejected by the run that succeeds
